@@ -1,6 +1,6 @@
 (* Evaluation entry points for C14 cases. *)
 From stdpp Require Import strings gmap sets.
-From CG Require Export Base.Cases Base.Oracle Model.FastVerilog.
+From CG Require Export Base.Cases Base.Oracle Model.FastVerilog Proofs.FastVerilogProofs.
 Open Scope string_scope.
 
 Inductive case :=
@@ -35,7 +35,9 @@ Definition holds (k : case) : bool :=
             bool_decide (inputs (c_g Cf) = inputs (c_g Cl)) && bool_decide (outputs (c_g Cf) = outputs (c_g Cl)) &&
             bool_decide (c_bbs Cf = c_bbs Cl) && bool_decide (pin_nets Cf = pin_nets Cl) &&
             bool_decide (endpoints (c_g Cf) = endpoints (c_g Cl)) &&
-            bool_decide (untie Cf = untie Cl) && same_function Cf Cl
+            bool_decide (untie Cf = untie Cl) &&
+            tie_shapeb (c_g Cf) && tie_shapeb (c_g Cl) &&         (* => same consistent valuations, any size (C14_untie_same_function) *)
+            same_function Cf Cl
         | _, _ => false
         end
       else true                       (* outside the documented subset the property is silent *)
